@@ -3,6 +3,8 @@
 (* C12: Polynomial::divide returns quotient and remainder of a valid       *)
 (* Euclidean step.                                                         *)
 (*  - division by the zero polynomial is Err; every other division is Ok   *)
+(*    (and comes back: a run that does not is recorded as "hang") - for     *)
+(*    every tolerance set_tolerance accepts, zero included                  *)
 (*  - dividend = q*d + r up to  KD*eps*(|q|_1 |d|_1 + |a|_1) + zero tol   *)
 (*  - deg r < deg d (r = 0 for a constant divisor)                         *)
 (*  - on exactly constructed cases (exact = TRUE) q and r equal the        *)
@@ -15,6 +17,8 @@ KD == FOfInt(64)
 
 Check(o) ==
   IF o.st = "panic" THEN {"never_panics"}
+  ELSE IF o.st = "hang" THEN {"division_terminates"}        \* no answer within the harness's deadline
+  ELSE IF o.st = "skipped" THEN {}                           \* not run: three earlier cases of the same process hung
   ELSE IF IsZeroPoly(o.d) THEN (IF o.st = "err" THEN {} ELSE {"division_by_zero_polynomial_is_err"})
   ELSE IF o.st # "ok" THEN {"division_by_nonzero_polynomial_is_ok"}
   ELSE
